@@ -429,3 +429,11 @@ MUTANTS += [
     m("c20-angle-swapped", ["C20"], PU, "getattr(field, y).array if x is not None else 0,\n        getattr(field, x).array if y is not None else 0,", "getattr(field, x).array if x is not None else 0,\n        getattr(field, y).array if y is not None else 0,"),
     m("c20-lightness-transparent", ["C20"], MPL, "        rgba[np.isnan(rgb[..., 0])] = 0\n", ""),
 ]
+
+MUTANTS += [
+    # ------------------------------------------------------------------ API-wide purity (C13)
+    m("c13-rotate-copy-mutates-corner", ["C13"], R, 'p1 = self.pmin.copy().astype("float")', "p1 = self.pmin"),
+    m("c13-integrate-scales-in-place", ["C13"], F, "tmp_array = self.array / 2", "tmp_array = self.array\n            tmp_array /= 2"),
+    m("c13-meshpad-moves-region", ["C13"], M, "pmin = self.region.pmin.copy().astype(float)", "pmin = self.region.pmin"),
+    m("c13-orientation-in-place", ["C13"], F, "            out=np.zeros_like(self.array),\n        )\n        return self.__class__(\n            self.mesh,\n            nvdim=self.nvdim,\n            value=orientation_array,", "            out=self.array,\n        )\n        return self.__class__(\n            self.mesh,\n            nvdim=self.nvdim,\n            value=orientation_array,"),
+]
